@@ -60,7 +60,14 @@ func frameSites(p *Prog) []frameSite {
 				return
 			}
 			if !mentionsField(st.Val, "nextFrameNum", 0) {
-				return
+				// or the counter claimed through a helper (directly, or kept in a captured local)
+				cv := st.Val
+				if rv, _ := resolveCaptured(stripConv(cv)); rv != nil {
+					cv = rv
+				}
+				if _, _, okc := counterClaim(cv, "nextFrameNum"); !okc {
+					return
+				}
 			}
 			var raw ssa.Value
 			for _, ref := range *fa.X.Referrers() {
@@ -189,6 +196,70 @@ func splitCounter(v ssa.Value, field string) (rest ssa.Value, snap ssa.Instructi
 	return nil, nil, false
 }
 
+// counterClaim: v is (a result of) a call of a module helper that returns the value the counter
+// field had on entry and, on every path, advances the counter by one of its parameters; returns
+// the call and the argument passed for that parameter.
+func counterClaim(v ssa.Value, field string) (*ssa.Call, ssa.Value, bool) {
+	v = stripConv(v)
+	idx := 0
+	if ex, ok := v.(*ssa.Extract); ok {
+		v, idx = ex.Tuple, ex.Index
+	}
+	call, ok := v.(*ssa.Call)
+	if !ok {
+		return nil, nil, false
+	}
+	h := call.Call.StaticCallee()
+	if !isModuleFn(h) || len(h.Params) != len(call.Call.Args) {
+		return nil, nil, false
+	}
+	var rets []*ssa.Return
+	Instrs(h, func(in ssa.Instruction) {
+		if rt, ok := in.(*ssa.Return); ok && rt.Block() != h.Recover {
+			rets = append(rets, rt)
+		}
+	})
+	if len(rets) != 1 || idx >= len(rets[0].Results) {
+		return nil, nil, false
+	}
+	snapV := stripConv(returnedValue(rets[0], idx))
+	snap, isLd := snapV.(*ssa.UnOp)
+	if _, f, _, okf := FieldOf(snapV); !isLd || !okf || f != field {
+		return nil, nil, false
+	}
+	var adv ssa.Value
+	isAdvance := func(in ssa.Instruction) bool {
+		st, ok := in.(*ssa.Store)
+		if !ok {
+			return false
+		}
+		if _, f, _, okf := FieldOf(st.Addr); !okf || f != field {
+			return false
+		}
+		bo, ok := stripConv(st.Val).(*ssa.BinOp)
+		if !ok || bo.Op != token.ADD || !InstrDominates(snap, st) {
+			return false
+		}
+		for _, pair := range [][2]ssa.Value{{bo.X, bo.Y}, {bo.Y, bo.X}} {
+			if _, f, _, okf := FieldOf(stripConv(pair[0])); okf && f == field {
+				if prm, isP := stripConv(pair[1]).(*ssa.Parameter); isP {
+					for j, q := range h.Params {
+						if q == prm {
+							adv = call.Call.Args[j]
+							return true
+						}
+					}
+				}
+			}
+		}
+		return false
+	}
+	if len(ReachAvoiding(h, nil, isAdvance, isReturn)) > 0 || adv == nil {
+		return nil, nil, false
+	}
+	return call, adv, true
+}
+
 // frameRule checks one source; rule is the rule id to report under.
 func frameRule(p *Prog, r *Report, rule string, want func(fs frameSite) bool) int {
 	n := 0
@@ -202,6 +273,33 @@ func frameRule(p *Prog, r *Report, rule string, want func(fs frameSite) bool) in
 		// stamped value = counter + X
 		x, snap, ok := splitCounter(fs.stamp.Val, "nextFrameNum")
 		if !ok {
+			// the counter may be read and advanced in one helper ("claim n frames, return the first")
+			claimV := fs.stamp.Val
+			if rv, _ := resolveCaptured(stripConv(claimV)); rv != nil {
+				claimV = rv
+			}
+			if call, adv, okc := counterClaim(claimV, "nextFrameNum"); okc && call.Parent() == fs.fn {
+				cpc := NewPolyCtx(fs.fn)
+				cpc.G = true
+				B := cpc.Of(adv)
+				okB := false
+				if len(B) == 1 {
+					for sym, c := range B {
+						if c == 1 && strings.HasPrefix(sym, "len(") {
+							okB = true
+						}
+						if mk, isMk := fs.raw.(*ssa.MakeSlice); isMk && c == 1 && cpc.Of(mk.Len).Equal(B) {
+							okB = true
+						}
+					}
+				}
+				r.Fn(FuncName(call.Call.StaticCallee()))
+				r.Check(okB, rule, name+": counter advance minus stamp offset is exactly the block length", p.InstrPos(call), "claimed frames = "+B.String(),
+					"the counter advances by "+B.String()+" while the block is stamped at the counter: that is not the block length, so later blocks overlap earlier ones or skip")
+				oncePerBlock := !InLoop(call) || (fs.stampFn == fs.fn && InstrDominates(call, fs.stamp) && !InLoopWith(call, fs.stamp))
+				r.Check(oncePerBlock, rule, name+": the counter advances once per block, after all channels are stamped", p.InstrPos(call), "one claim per block, outside the per-channel loop", "the counter is advanced inside the per-channel loop: channels of one block get different frame numbers")
+				continue
+			}
 			r.Bad(rule, name+": the stamped frame number is the running counter (plus a block-local term)", p.InstrPos(fs.stamp), "the first-frame value is not built from the running counter")
 			continue
 		}
@@ -215,12 +313,21 @@ func frameRule(p *Prog, r *Report, rule string, want func(fs frameSite) bool) in
 			continue
 		}
 		y, _, ok := splitCounter(cst.Val, "nextFrameNum")
-		if !ok || y == nil {
-			r.Bad(rule, name+": the running counter advances by the block length", p.InstrPos(cst), "the counter is not advanced as counter + block length")
-			continue
-		}
 		cpc := NewPolyCtx(fs.fn)
 		cpc.G = true
+		var yPoly Poly
+		if !ok || y == nil {
+			// the new counter value as a polynomial: counter + Y, however the sum is grouped
+			// (e.g. built from the stamped value: (counter + lost) + used)
+			cv := cpc.Of(cst.Val)
+			if sym, has := symWithSuffix(cv, ".nextFrameNum"); has && cv[sym] == 1 {
+				yPoly = cv.Sub(polySym(sym))
+			}
+			if yPoly == nil || len(yPoly) == 0 {
+				r.Bad(rule, name+": the running counter advances by the block length", p.InstrPos(cst), "the counter is not advanced as counter + block length")
+				continue
+			}
+		}
 		spc := cpc
 		if fs.stampFn != fs.fn {
 			spc = NewPolyCtx(fs.stampFn)
@@ -230,7 +337,10 @@ func frameRule(p *Prog, r *Report, rule string, want func(fs frameSite) bool) in
 		if x != nil {
 			X = spc.Of(x)
 		}
-		Y := cpc.Of(y)
+		Y := yPoly
+		if Y == nil {
+			Y = cpc.Of(y)
+		}
 		var B Poly
 		if fs.stampFn == fs.fn {
 			B = Y.Sub(X)
@@ -493,6 +603,14 @@ func c03R2R4R5(p *Prog, r *Report) {
 			seen[v] = true
 			if ph, ok := v.(*ssa.Phi); ok {
 				for i, e := range ph.Edges {
+					// the running minimum written with min(): min(current, count)
+					if args, isMin := minMaxArgs(e, "min"); isMin {
+						for _, a := range args {
+							if stripConv(a) == ssa.Value(count) {
+								okMin = true
+							}
+						}
+					}
 					if e == ssa.Value(count) {
 						pred := ph.Block().Preds[i]
 						for _, c := range append(controllingIfs(pred), ctrlOfEdge(pred, ph.Block())...) {
@@ -573,7 +691,14 @@ func c03R2R4R5(p *Prog, r *Report) {
 		r.Check(InstrDominates(fill, first) && sameRecv, "C03.R4", "per group, gaps are filled before the group's first sequence number is taken", p.InstrPos(first), "fillMissingPackets dominates firstSeqNum on the same group",
 			"a group's first sequence number is taken before its gaps are filled: a lost first packet makes the alignment trim real packets of the other groups and the filler is discarded again")
 		r.Check(!sameTightLoop(trim.Block(), first.Block()) && InstrReaches(first, trim), "C03.R4", "all first numbers are known before any group is trimmed", p.InstrPos(trim), "the trim loop follows the loop that finds the largest first number", "groups are trimmed before the largest first sequence number over all groups is known")
-		r.Check(InstrDominates(trim, count) && trim.Call.Args[0] == count.Call.Args[0], "C03.R4", "frames are counted after the group was trimmed", p.InstrPos(count), "trimPacketsBefore dominates countSamplesInQueue on the same group", "frames are counted before the group is trimmed to the common start")
+		// the same group: the counting call takes the group, or the group's queue
+		sameGroup := trim.Call.Args[0] == count.Call.Args[0]
+		for _, a := range count.Call.Args {
+			if _, f, base, okf := FieldOf(a); okf && f == "queue" && base == trim.Call.Args[0] {
+				sameGroup = true
+			}
+		}
+		r.Check(InstrDominates(trim, count) && sameGroup, "C03.R4", "frames are counted after the group was trimmed", p.InstrPos(count), "trimPacketsBefore dominates countSamplesInQueue on the same group", "frames are counted before the group is trimmed to the common start")
 		// the trim argument is the maximum of the first numbers: phi updated under sn0 > firstSn
 		okMax := false
 		if ph, ok := trim.Call.Args[1].(*ssa.Phi); ok {
@@ -587,6 +712,14 @@ func c03R2R4R5(p *Prog, r *Report) {
 				for _, e := range ph.Edges {
 					if isFirstVal(e) {
 						okMax = true
+					}
+					// the running maximum written with max(): max(current, first number)
+					if args, isMax := minMaxArgs(e, "max"); isMax {
+						for _, a := range args {
+							if isFirstVal(stripConv(a)) || isFirstVal(a) {
+								okMax = true
+							}
+						}
 					}
 					if p2, ok := e.(*ssa.Phi); ok {
 						walk(p2, d+1)
@@ -656,7 +789,7 @@ func c03R2R4R5(p *Prog, r *Report) {
 				if x.Op == token.ADD {
 					// + component of fillMissingPackets' result
 					for _, o := range []ssa.Value{x.X, x.Y} {
-						if ex, ok := o.(*ssa.Extract); ok && ex.Tuple == ssa.Value(fill) {
+						if isComponentOf(stripConv(o), fill) {
 							accum = true
 						}
 					}
@@ -937,6 +1070,53 @@ func c03R6R7(p *Prog, r *Report) {
 		r.Fn(FuncName(fn))
 		// counters: integer named results (spilled or phi-carried): stores/adds whose value is old + something
 		res := fn.Signature.Results()
+		// ... or the integer fields of a struct result built in a local
+		if res.Len() == 1 {
+			if stt, isSt := res.At(0).Type().Underlying().(*types.Struct); isSt {
+				var cell *ssa.Alloc
+				Instrs(fn, func(in ssa.Instruction) {
+					if ret, ok := in.(*ssa.Return); ok && len(ret.Results) == 1 {
+						if ld, ok := returnedValue(ret, 0).(*ssa.UnOp); ok {
+							if a, ok := ld.X.(*ssa.Alloc); ok {
+								cell = a
+							}
+						}
+					}
+				})
+				for fi := 0; cell != nil && fi < stt.NumFields(); fi++ {
+					if !isIntLike(stt.Field(fi).Type()) {
+						continue
+					}
+					name := stt.Field(fi).Name()
+					var adds []*ssa.BinOp
+					for _, ref := range *cell.Referrers() {
+						fa, ok := ref.(*ssa.FieldAddr)
+						if !ok || fa.Field != fi {
+							continue
+						}
+						for _, r2 := range *fa.Referrers() {
+							if st, ok := r2.(*ssa.Store); ok {
+								if bo, ok := st.Val.(*ssa.BinOp); ok && bo.Op == token.ADD {
+									adds = append(adds, bo)
+								}
+							}
+						}
+					}
+					if len(adds) == 0 {
+						r.Bad("C03.R6", FuncName(fn)+": "+name+" counts every filler packet", p.Pos(fn.Pos()), "the result is never advanced")
+						continue
+					}
+					ok, where := true, ""
+					for _, a := range adds {
+						if !(InLoopWith(a, mk) || a.Block() == mk.Block()) || !sameTightLoop(a.Block(), mk.Block()) && a.Block() != mk.Block() {
+							ok, where = false, p.InstrPos(a)
+						}
+					}
+					r.Check(ok, "C03.R6", FuncName(fn)+": "+name+" counts every filler packet", p.InstrPos(mk), "advanced in the loop that makes the fillers, once per filler",
+						"the count is advanced at "+where+", outside the loop that creates one filler packet per missing sequence number: a burst of several lost packets is reported as one, so the dropped-frame figures handed on with the block are too small")
+				}
+			}
+		}
 		for i := 0; i < res.Len(); i++ {
 			name := res.At(i).Name()
 			if name == "" || !isIntLike(res.At(i).Type()) {
@@ -1206,6 +1386,28 @@ func naturalLoopContains(d, x *ssa.BasicBlock) bool {
 		}
 		if walk(x) {
 			return true
+		}
+	}
+	return false
+}
+
+// isComponentOf: v is one of the results of call: an extracted tuple element, or a field of the
+// struct it returns (read directly or through the local the result was stored in).
+func isComponentOf(v ssa.Value, call *ssa.Call) bool {
+	switch x := v.(type) {
+	case *ssa.Extract:
+		return x.Tuple == ssa.Value(call)
+	case *ssa.Field:
+		return x.X == ssa.Value(call)
+	case *ssa.UnOp:
+		if fa, ok := x.X.(*ssa.FieldAddr); ok && x.Op == token.MUL {
+			if a, ok := fa.X.(*ssa.Alloc); ok {
+				for _, ref := range *a.Referrers() {
+					if st, ok := ref.(*ssa.Store); ok && st.Addr == ssa.Value(a) && st.Val == ssa.Value(call) {
+						return true
+					}
+				}
+			}
 		}
 	}
 	return false
